@@ -608,7 +608,16 @@ func (x *Exec) builtinAppend(c *callCtx) {
 			n.assume(mkEq(x.elemAt(h, nh, c.res[0].S, idx, es), app("select", tArr, plus(app("s.off", t.S), intLit(int64(i))))))
 		}
 	}
-	if x.elemLinksOn() && simpleConst(heap) && simpleConst(c.res[0].S) {
+	if (k < 0 || k > 8) && simpleConst(heap) && simpleConst(c.res[0].S) && simpleConst(t.S) {
+		// append(s, t...): the same definition at the level of the specification access (consequences of the model):
+		// the result holds s's elements, then t's
+		nh := x.get(st, h).S
+		a, b := x.elemAt(h, nh, c.res[0].S, "i", es), x.elemAt(h, heap, s.S, "i", es)
+		n.assume(fmt.Sprintf("(forall ((i Int)) (! (=> (and (<= 0 i) (< i (s.len %s))) (= %s %s)) :pattern (%s) :pattern (%s)))", s.S, a, b, a, b))
+		ta := x.elemAt(h, heap, t.S, "i", es)
+		ra := x.elemAt(h, nh, c.res[0].S, app("+", app("s.len", s.S), "i"), es)
+		n.assume(fmt.Sprintf("(forall ((i Int)) (! (=> (and (<= 0 i) (< i (s.len %s))) (= %s %s)) :pattern (%s)))", t.S, ra, ta, ta))
+	} else if x.elemLinksOn() && simpleConst(heap) && simpleConst(c.res[0].S) {
 		// a consequence of the model above, stated for both triggers: the result has the old elements as its prefix
 		nh := x.get(st, h).S
 		a, b := x.elemAt(h, nh, c.res[0].S, "i", es), x.elemAt(h, heap, s.S, "i", es)
